@@ -760,7 +760,7 @@ def run_property(mod, argv=None):
         'wall_s': wall,
         'violations': len(confirmed),
     }
-    if args.part or os.environ.get('VERIF_REPO'):
+    if args.part or os.environ.get('VERIF_REPO') or os.environ.get('VERIF_SCRATCH'):
         # a run restricted to one part (or against a scratch copy of /repo) is a development aid: it must not replace the evidence of the whole check
         edir = os.path.join(VERIF, 'out', 'evidence-partial')
         os.makedirs(edir, exist_ok=True)
